@@ -3,7 +3,7 @@ import re
 
 from cfg import cfg_of
 from expr import Exprs, fmt, walk, contains
-from mirutil import is_call, for_loops, result_fate, returns_result
+from mirutil import is_call, for_loops, result_fate, returns_result, dominating_conds, cond_bool
 from framework import site_of
 import callgraph as cgmod
 
@@ -205,6 +205,34 @@ def run(F, rep):
                 bad += [t["callee"] for _, t in c.calls() if not t.get("indirect") and REORDER.search(t["callee"])]
             rep.ob("C17-R4", "list_samples_with_prefix filters without reordering", not bad, detail="reordering calls: %s" % bad,
                    site="%s:%d" % (f.file, f.line_lo), key="C17-R4 | list_samples_with_prefix | no reorder")
+            # ... and neither does anything it calls: a reordering call in a callee must sit behind a flag parameter
+            # that every call on this path passes as the constant that switches it off
+            reach = [k for k in G.reachable([f.key]) if k in F.funcs and F.funcs[k].crate in ("ragc_core", "ragc_common") and F.funcs[k].kind != "promoted"]
+            nre = 0
+            for k in reach:
+                cf = F.funcs[k]
+                cex = None
+                for bi, t in cf.calls():
+                    if t.get("indirect") or not REORDER.search(t["callee"]):
+                        continue
+                    nre += 1
+                    cex = cex or Exprs(cf)
+                    flags = [(c[0][1], cond_bool(c[1], c[2])) for c in dominating_conds(cf, bi, cex) if isinstance(c[0], tuple) and c[0][0] == "param" and cond_bool(c[1], c[2]) is not None]
+                    ok, why = False, "unconditional %s in %s" % (t["callee"].rsplit("::", 1)[-1], _short(k))
+                    if flags and k != f.key:
+                        pname, need = flags[0]
+                        idx = [i for i, n in enumerate(cf.arg_names().values()) if n == pname]
+                        sites = [(F.funcs[c], b2, t2) for c in reach for b2, t2 in F.funcs[c].calls() if not t2.get("indirect") and t2["callee"] == k]
+                        vals = []
+                        for sf, b2, t2 in sites:
+                            v = Exprs(sf).operand(t2["args"][idx[0]]) if idx else None
+                            vals.append(v)
+                        off = ("const", 0) if need else ("const", 1)
+                        ok = bool(sites) and all(v is not None and v[0] == "const" and int(v[1]) == off[1] for v in vals)
+                        why = "%s in %s runs when `%s` is %s; calls on this path pass %s" % (t["callee"].rsplit("::", 1)[-1], _short(k), pname, need, [fmt(v) for v in vals])
+                    rep.ob("C17-R4", "no callee of list_samples_with_prefix reorders the sample list (sorting is switched off by a constant flag)", ok, detail=why,
+                           site=site_of(cf, t), key="C17-R4 | list_samples_with_prefix | callee %s reorder" % k)
+            rep.floor("C17-R4", nre, 1, "reordering calls behind a flag below list_samples_with_prefix (get_samples_list(sorted))")
 
 
 def _short(k):
